@@ -109,6 +109,10 @@ CLASSES = {
 }
 
 
+from harness import known_c15  # noqa: E402
+CLASSES.update(known_c15.CLASSES)
+
+
 def witness_still_fails(f):
     """re-run the pinned witness of a finding against the current tree; True = it still fails,
     False = it no longer fails (then no KNOWN-FINDING line is printed), None = no witness/unknown"""
